@@ -62,6 +62,26 @@ Theorem C12_float64_exact_upto_2_53 : forall z : Z, Z.abs z <= 9007199254740992 
 Proof. exact round64Z_exact. Qed.
 Print Assumptions C12_float64_exact_upto_2_53.
 
+(* ... and beyond 2^53 it is round-to-nearest, ties-to-even, to 53 significant bits (what Go's
+   float64(x) does): the result is +-q' * 2^sh with sh = floor(log2 |z|) - 52, q' of at most 53 bits,
+   a nearest multiple of 2^sh, and even when z lies half-way. This is the conversion the code as
+   found applied to both sides, and the one the general evaluator applies for float operands. *)
+Theorem C12_zlog2_is_floor_log2 : forall a : Z, 0 < a -> 2 ^ zlog2 a <= a < 2 ^ (zlog2 a + 1).
+Proof. exact zlog2_spec. Qed.
+Print Assumptions C12_zlog2_is_floor_log2.
+
+Theorem C12_float64_round_nearest_even : forall z : Z,
+  9007199254740992 <= Z.abs z ->
+  let a := Z.abs z in
+  let sh := zlog2 a - 52 in
+  1 <= sh /\
+  exists q', round64Z z = Z.sgn z * (q' * 2 ^ sh) /\
+             2 ^ 52 <= q' <= 2 ^ 53 /\
+             2 * Z.abs (q' * 2 ^ sh - a) <= 2 ^ sh /\
+             (2 * Z.abs (q' * 2 ^ sh - a) = 2 ^ sh -> Z.even q' = true).
+Proof. exact round64Z_nearest_even. Qed.
+Print Assumptions C12_float64_round_nearest_even.
+
 (* The extracted checker run on the implementation's own answers says exactly "the two forms decide
    alike and the shortcut's answer is the parenthesised form's". *)
 Theorem C12_checker_sound : forall plain paren f,
